@@ -534,9 +534,6 @@ func (x *Exec) applyContract(s *State, c *Contract, key string, sig *types.Signa
 			name = "requires"
 		}
 		props := r.Props()
-		if len(props) == 0 {
-			props = []string{"C14"}
-		}
 		s.goal(fmt.Sprintf("%s#pre:%s:%s%s", x.entryKey, key, name, site), "pre", props, t, x.posOf(callInstr), r.Src)
 	}
 	x.siteAsserts(s, key, callInstr, env)
@@ -607,6 +604,15 @@ func (x *Exec) applyContract(s *State, c *Contract, key string, sig *types.Signa
 			x.unsup("%v (%s)", err, e.Where)
 		}
 		s.assume(t)
+	}
+	if callInstr != nil && s.frame.fn == x.entry && kind == fkCall {
+		short := key
+		if i := strings.LastIndex(short, "."); i >= 0 {
+			short = short[i+1:]
+		}
+		short = strings.TrimPrefix(short, "type:")
+		lbl := fmt.Sprintf("%s_%d", short, x.calleeOrdinal(s.frame.fn, key, callInstr))
+		s.setLabel(lbl)
 	}
 	if panicState != nil {
 		ps := panicState
@@ -774,6 +780,12 @@ func (x *Exec) resolveLocs(pkg *types.Package, locs []string) []string {
 	for _, l := range locs {
 		l = strings.TrimSpace(l)
 		switch {
+		case strings.HasPrefix(l, "@"):
+			ls, ok := w.locSets[l[1:]]
+			if !ok {
+				x.unsup("unknown location set %s", l)
+			}
+			out = append(out, x.resolveLocs(pkg, ls)...)
 		case strings.HasPrefix(l, "$"):
 			out = append(out, l)
 		case strings.HasPrefix(l, "map(") || strings.HasPrefix(l, "elems(") || strings.HasPrefix(l, "cell("):
